@@ -75,6 +75,7 @@ PROPS = {
              "values include entries of 4800 and 9000 bytes (beyond 4096/8192 buffer sizes); calls include standalone snapshots; scenarios without pre-existing content may start from a snapshot directory three missing levels deep. exhaustive stage: every schedule with <= 2 preemptions of four fixed two-task scenarios (quick: the first at every yield, the others at yields in front of file-system/lock/registry statements; thorough: every yield); the cooperative RWMutex models writer preference (recursive read locks deadlock as in sync.RWMutex); "
              "exhaustive_big: every single preemption (thorough: every pair) of two scenarios with such big entries. Oracle: every call gets its serial outcome; the final file parses, keeps the initial entries in order with "
              "updated bodies, holds exactly one entry per created slot; no deadlock. race stage: generated goroutine mixes of the five APIs, Skip* and one shared Config under the race detector. "
+             "shared_filename stages: standalone calls of 2-4 parallel tests through ONE Config with an explicit Filename (they share the ordinal sequence golden_1, golden_2, ...), from nothing (values all different) or next to 1-3 existing files (all values equal), mixed with multi-entry calls; oracle = what every serial order of the calls gives: every ordinal 1..N handed out exactly once (file k exists for all k <= N, every value in exactly one file, the values of one test at increasing ordinals, min(N, existing) calls pass and the rest are added); generated schedules with 0-3 preemptions plus every schedule with <= 2 preemptions of two fixed scenarios (quick: pairs at file-system/lock/registry yields; thorough: every pair). "
              "non-trivial = >= 1 preemption and >= 2 writing tasks (schedules); >= 2 APIs (race); distinct = distinct canonical JSON",
         assumptions=["file operations between two yields are atomic (statement granularity); kernel-level partial writes are out of reach", "exhaustive only up to two preemptions on small scenarios",
                      "a race report is always a real race; absence is limited to executed accesses"],
@@ -83,6 +84,8 @@ PROPS = {
             dict(name="exhaustive_big", engine="sched", run="^TestC06_ExhaustiveBig$", quick=1, thorough=1, shards_quick=4, shards_thorough=16),
             dict(name="schedules", engine="sched", run="^TestC06_Schedules$", quick=400, thorough=4000, shards_quick=4, shards_thorough=16),
             dict(name="exhaustive3", engine="sched", run="^TestC06_Exhaustive3$", quick=1, thorough=1, shards_thorough=16, thorough_only=True),
+            dict(name="shared_filename_exhaustive", engine="sched", run="^TestC06_ExhaustiveShared$", quick=1, thorough=1, shards_quick=8, shards_thorough=16),
+            dict(name="shared_filename", engine="sched", run="^TestC06_SharedFilename$", quick=300, thorough=3000, shards_quick=4, shards_thorough=16),
             dict(name="race", engine="race", run="^TestC06Race_", quick=100, thorough=1500, shards_quick=2, shards_thorough=8, expect_race_free=True),
         ],
     ),
